@@ -368,3 +368,7 @@ def run_case(case, ctx):
     else:
         x = Fxp([[code(), code()], [code(), code()]], s, w, nf, raw=True)
     roundtrip(ctx, x, s, w, nf)
+    if w >= 63 and i % 4 == 0:
+        # codes beyond 2^63 next to short ones (NumPy's dtype discovery would turn such lists into float64)
+        roundtrip(ctx, Fxp([hi, 1, lo if s else 0], s, w, nf, raw=True), s, w, nf)
+        roundtrip(ctx, Fxp([[hi, 0], [1, hi - 1]], s, w, nf, raw=True), s, w, nf)
